@@ -59,6 +59,33 @@ fn out_g2(p: &G2, out: &mut Vec<String>) { let a = p.into_affine(); if a.is_zero
 fn out_a1(a: &G1Affine, out: &mut Vec<String>) { if a.is_zero() { out.push("inf".into()); } else { let (x, y) = a.as_tuple(); out.push(fq_hex(x)); out.push(fq_hex(y)); } }
 fn out_a2(a: &G2Affine, out: &mut Vec<String>) { if a.is_zero() { out.push("inf".into()); } else { let (x, y) = a.as_tuple(); o2(x, out); o2(y, out); } }
 
+// stand-in `prime_field_api` (C08): every operation through method-call syntax on the concrete types, as the crate's callers write it
+macro_rules! prime_field_api { ($F:ty, $R:ident, $n:expr, $e:expr, $out:expr, $tag:expr) => {{
+    let limbs = |h: &str| -> [u64; $n] { let h = format!("{:0>w$}", h.trim_start_matches("0x"), w = 16 * $n); let mut l = [0u64; $n]; for i in 0..$n { l[$n - 1 - i] = u64::from_str_radix(&h[16 * i..16 * (i + 1)], 16).unwrap(); } l };
+    let hex = |r: &$R| -> String { let mut s = String::from("0x"); for i in (0..$n).rev() { s.push_str(&format!("{:016x}", r.0[i])); } s };
+    let ra = $R(limbs(&$e.s("a"))); let rb = $R(limbs(&$e.s("b")));
+    let exp: Vec<u64> = $e.s("exp").split(',').filter(|s| !s.is_empty()).map(|s| u64::from_str_radix(s.trim_start_matches("0x"), 16).unwrap()).collect();
+    // representation type
+    let mut r2 = ra; r2.div2(); let mut r3 = ra; r3.shr(67); let mut r4 = ra; r4.mul2(); let mut r5 = ra; r5.shl(67);
+    $tag = format!("{}|{}|{}|{:?}|{}|{}", ra.is_zero(), ra.is_odd(), ra.num_bits(), ra.cmp(&rb), ra == rb, ra < rb);
+    $out.push(hex(&r2)); $out.push(hex(&r3)); $out.push(hex(&r4)); $out.push(hex(&r5));
+    match (<$F>::from_repr(ra), <$F>::from_repr(rb)) {
+        (Ok(a), Ok(b)) => {
+            $tag.push_str(&format!("|ok|{}|{:?}|{}", a.is_zero(), a.cmp(&b), a == b));
+            let mut x = a; x.add_assign(&b); $out.push(hex(&x.into_repr()));
+            let mut x = a; x.sub_assign(&b); $out.push(hex(&x.into_repr()));
+            let mut x = a; x.mul_assign(&b); $out.push(hex(&x.into_repr()));
+            let mut x = a; x.square(); $out.push(hex(&x.into_repr()));
+            let mut x = a; x.negate(); $out.push(hex(&x.into_repr()));
+            let mut x = a; x.double(); $out.push(hex(&x.into_repr()));
+            match a.inverse() { Some(y) => $out.push(hex(&y.into_repr())), None => $out.push("none".into()) }
+            $out.push(hex(&a.pow(&exp).into_repr()));
+            $out.push(hex(&a.pow(exp.clone()).into_repr()));
+        }
+        (x, y) => { $tag.push_str(&format!("|err|{}|{}", x.is_ok(), y.is_ok())); }
+    }
+}}}
+
 fn main() {
     let args: Vec<String> = std::env::args().collect();
     let label = args[1].clone();
@@ -264,6 +291,7 @@ fn main() {
             if e.s("field") == "fq" { let x = Fq::from_okm(GenericArray::from_slice(&b)); out.push(fq_hex(&x)); }
             else { let x = Fr::from_okm(GenericArray::from_slice(&b)); let r = x.into_repr(); let mut s = String::from("0x"); for i in (0..4).rev() { s.push_str(&format!("{:016x}", r.0[i])); } out.push(s); }
         }
+        "prime_field_api" => { if e.s("field") == "fq" { prime_field_api!(Fq, FqRepr, 6, e, out, tag) } else { prime_field_api!(Fr, FrRepr, 4, e, out, tag) } }
         "final_exp" => { match Bls12::final_exponentiation(&e.fq12("self")) { Some(y) => { tag = "some".into(); o12(&y, &mut out) } None => tag = "none".into() } }
         "fq2_misc" => {
             let a = e.fq2("a"); let b = e.fq2("b");
